@@ -2,7 +2,8 @@
    Only theorem statements closed by `exact`, each followed by Print Assumptions.
    opsem (the meaning of the scalar operations) is universally quantified: any function of the operation
    (name, attributes) and the operand values; integer and float operations are covered uniformly. *)
-From Snax Require Import Base.Prelude Model.C20Phs Proofs.C20PhsProofs Proofs.C20DecodeProofs.
+From Snax Require Import Base.Prelude Model.C20Phs Proofs.C20PhsProofs Proofs.C20DecodeProofs
+  Proofs.C20SearchProofs Proofs.C20AppendProofs Proofs.C20HistoryProofs.
 
 (* valid_mapping_sem: if valid_mapping accepts the mux assignment mu for the kernel graph g against the
    abstract graph G, then G — with its mux switches set as mu says and its choose switches selecting g's
@@ -35,6 +36,38 @@ Theorem C20_switch_count :
 Proof. exact switch_count. Qed.
 Print Assumptions C20_switch_count.
 
+(* append_keeps: a kernel whose graph is embedded in the abstract graph G (every choose op present under its
+   id, every operand among the sources the abstract operand can select, every operation among the
+   alternatives) stays embedded after any further append, the appended kernel is embedded, and an embedded
+   kernel is decodable against any well-formed graph; with decode_sound the decoded function is the kernel's
+   own, before and after the append. *)
+Theorem C20_append_keeps :
+  forall g' G G', append g' G = Some G' ->
+    (forall g, embeds g G -> embeds g G') /\ embeds g' G' /\ pdata G' = pdata G.
+Proof. exact append_embeds. Qed.
+Print Assumptions C20_append_keeps.
+
+Theorem C20_embedded_decodable :
+  forall g G, pe_wf G = true -> is_concrete g = true -> nodup_ids (map nid (pnodes g)) = true ->
+    pdata g = pdata G -> embeds g G -> exists sw, decode G g = Some sw.
+Proof. exact embedded_decodable. Qed.
+Print Assumptions C20_embedded_decodable.
+
+(* history_correct: for every history gs (any length, any order) of kernel graphs as encode produces them
+   for attribute-free operations (kernel_ok) with a common number of data arguments, if the merge goes
+   through then EVERY kernel of the history decodes against the merged PE, the number of values equals
+   get_true_switches, and under them the merged PE computes exactly the kernel's function. *)
+Theorem C20_history_correct :
+  forall opsem gs G,
+    merge_all gs = Some G ->
+    (forall g, In g gs -> kernel_ok g = true /\ pdata g = pdata G) ->
+    pe_wf G = true ->
+    forall g, In g gs ->
+      exists sw, decode G g = Some sw /\ true_switches G = Some (length sw) /\
+                 forall ins v swg, eval_pe opsem g swg ins = Some v -> eval_pe opsem G sw ins = Some v.
+Proof. exact history_correct_wf. Qed.
+Print Assumptions C20_history_correct.
+
 (* non-vacuity: two kernels with different routing and operations; the merged PE has a mux and a
    two-alternative choose op, decode succeeds with a non-trivial switch list and every hypothesis holds *)
 Definition ex_f32 : sig := ([132;132],[132]).
@@ -53,3 +86,18 @@ Proof.
   eexists _, _, _, _. repeat split; try (vm_compute; reflexivity).
 Qed.
 Print Assumptions C20_decode_nonvacuous.
+
+(* non-vacuity of history_correct: three kernels, merged; all hypotheses hold *)
+Definition ex_b3 : body :=
+  mkBody 3 [mkKop ex_f32 (mkOp 21 0) [KArg 0; KArg 0]; mkKop ex_f32 (mkOp 20 0) [KOp 0; KArg 1];
+            mkKop ex_f32 (mkOp 22 0) [KOp 1; KOp 0]] [KOp 2].
+Example C20_history_nonvacuous :
+  exists g1 g2 g3 G,
+    encode ex_b1 = Some g1 /\ encode ex_b2 = Some g2 /\ encode ex_b3 = Some g3 /\
+    merge_all [g1; g2; g3] = Some G /\ pe_wf G = true /\
+    forallb (fun g => kernel_ok g && Nat.eqb (pdata g) (pdata G)) [g1; g2; g3] = true /\
+    map (decode G) [g1; g2; g3] = [Some [0; 0; 0; 0; 0; 0; 0]; Some [1; 1; 1; 1; 1; 1; 0]; Some [2; 2; 0; 1; 0; 0; 1]].
+Proof.
+  eexists _, _, _, _. repeat split; try (vm_compute; reflexivity).
+Qed.
+Print Assumptions C20_history_nonvacuous.
